@@ -257,7 +257,7 @@ def chunk(payload):
 
 RULE = ("enum: small LPs (<=3 rows x 4 cols, all senses/bound shapes) x every basic set x every type-consistent nonbasic assignment (complete enumeration unless capped); "
         "each non-singular basis (exact rank in Fractions) is evaluated exactly and QSexact_basis_optimalstatus / _dualstatus (+dobjval) / QSexact_verify must answer "
-        "accordingly; ret: bases returned by QSexact_solver under random configurations must have nrows basics and, if non-singular, be exactly optimal with the reported "
+        "accordingly; sloppy twins: a nonbasic status naming a bound the column does not have must get the verdicts of the basis with the column on its only finite bound (or be refused); ret: bases returned by QSexact_solver under random configurations must have nrows basics and, if non-singular, be exactly optimal with the reported "
         "value, be confirmed by the three verdict functions and by a warm start on a fresh object; non-trivial/distinct = (LP, basis) pairs resp. scripts")
 
 
